@@ -6,6 +6,7 @@ import FFVerif.Model.Proto
 import FFVerif.Props.C01
 import FFVerif.Props.C02
 import FFVerif.Props.C05
+import FFVerif.Props.C19
 open FF FF.Proto
 
 def counterByName (n : String) : Option (List Int → List Cyc) :=
@@ -76,6 +77,39 @@ def handle (toks : List String) : Option String :=
     let seq ← parseList seq
     let t ← parseIntTable t
     some (showFail (C05.failingPeak h ref seq t))
+  | ["hyst", h, gate] => do
+    let h ← parseList h
+    let g ← parseInt? gate
+    some (showList (hysteresis h g))
+  | ["digit", r, d] => do
+    let r ← parseInt? r
+    let d ← parseList d
+    some (showList (digitize r d))
+  | ["agg", b, rows] => do
+    let b ← parseInt? b
+    let rows ← parseIntTable rows
+    some (showIntTable (aggregate b rows))
+  | ["c19pv", k, h, out, again] => do
+    let h ← parseList h
+    let out ← parseList out
+    let again ← parseList again
+    some (showFail (C19.failingPv (k == "1") h out again))
+  | ["c19hy", h, gate, out] => do
+    let h ← parseList h
+    let g ← parseInt? gate
+    let out ← parseList out
+    some (showFail (C19.failingHyst h g out))
+  | ["c19dg", r, d, out, again] => do
+    let r ← parseInt? r
+    let d ← parseList d
+    let out ← parseList out
+    let again ← parseList again
+    some (showFail (C19.failingDigit r d out again))
+  | ["c19ag", b, rows, out] => do
+    let b ← parseInt? b
+    let rows ← parseIntTable rows
+    let out ← parseIntTable out
+    some (showFail (C19.failingAgg b rows out))
   | ["c01mat", h, m] => do
     let h ← parseList h
     let m ← parseTriples m
